@@ -5,6 +5,5 @@ CONSTANTS
   Funs <- Empty
   Results <- Empty
 CONSTRAINT Progress
-INVARIANT Repeatable
 POSTCONDITION Accepted
 CHECK_DEADLOCK FALSE
